@@ -83,6 +83,7 @@ int main(int argc, char **argv) {
   std::string flags = argc > 6 ? argv[6] : "";
   bool fb = flags.find('b') != std::string::npos, fl = flags.find('l') != std::string::npos, ft = flags.find('t') != std::string::npos;
   bool fc = flags.find('c') != std::string::npos;   // compile only
+  bool fk = flags.find('k') != std::string::npos;   // tokens only (--tokens)
   if (chdir(scratch.c_str()) != 0) return 2;
   signal(SIGVTALRM, on_alarm);
   std::string line, binpath = "x_case.bin";
@@ -94,6 +95,12 @@ int main(int argc, char **argv) {
     std::string input;
     for (size_t i = 0; i + 1 < hexin.size(); i += 2) input += (char)strtol(hexin.substr(i, 2).c_str(), nullptr, 16);
     long maxsteps = jnum(line, "maxsteps", 200000);
+    if (fk) {
+      std::ostringstream ts; std::string st = "ok";
+      try { xcmp::Driver dr(ts); dr.run(xcmp::DriverAction::EMIT_TOKENS, src, false); } catch (const std::exception &) { st = "error"; }
+      fprintf(g_out, "{\"id\":\"%s\",\"idx\":%ld,\"status\":\"%s\",\"tokens\":\"%s\"}\n", jesc(g_id).c_str(), g_index, st.c_str(), jesc(ts.str()).c_str());
+      continue;
+    }
     struct itimerval tv = {{0, 0}, {cpu_s, 0}};
     setitimer(ITIMER_VIRTUAL, &tv, nullptr);
     std::string status = "exit", diag, listing;
